@@ -140,6 +140,14 @@ def fixed_cases():
     order = list(range(n)) + list(range(n - 1, -1, -1)) + [1000 + i for i in range(n)] + [i for i in range(n) if i % 2] + [1000 + i for i in range(n - 1, -1, -1)]
     yield {'items': items, 'order': order, 'junk': [0, 3, 50, 7, 1000]}
     yield {'items': [[MIXED_KEYS, {'sort_dict_keys': True}], [['int', 1], {}]], 'order': [0, 1] * 40, 'junk': [1, 17, 333, 5, 64, 2]}   # D17
+    # a call that raises part-way (the printer of a Flaky object returns a non-document while the containers around it are
+    # open), then the same and other values again - with every combination of settings used before
+    flaky_items = [[['list', [['dict', [[['str', 'k'], ['list', [['flaky', 1], ['int', 2]]]]]], ['tuple', [['flaky', 2]]]]], {}],
+                   [['dict', [[['str', 'a'], ['list', [['flaky', 3]]]]]], {'width': 20}],
+                   [['list', [['list', [['int', 1], ['int', 2]]], ['dict', [[['str', 'k'], ['int', 1]]]]]], {}],
+                   [['flaky', 0], {}],
+                   [['list', [['flaky', 1]]], {'sort_dict_keys': True, 'depth': 2}]]
+    yield {'items': flaky_items, 'order': [0, 1, 2, 3, 4, 2000, 0, 2001, 1, 2, 2003, 3, 2004, 4, 0, 1000, 1001, 2002, 2], 'junk': [1, 5]}
     # D26: a struct sequence whose repr cannot be parsed prints the same before and after the field names of its class were resolved
     weird = ['std', 'struct_time_x', [['opaque', 1]] + [['int', j] for j in range(1, 9)]]
     yield {'items': [[weird, {}], [['std', 'struct_time', [2020, 1, 2, 3, 4, 5, 3, 2, 0]], {}], [['list', [weird, ['std', 'struct_time', [2021, 1, 2, 3, 4, 5, 3, 2, 0]]]], {}]],
